@@ -11,6 +11,7 @@ cap an explicitly given dimension at its limit (fixes/C15-explicit-over-limit.pa
 is present is emitted as `caps_explicit`, the model follows it, the theorems need it to be true.
 """
 import ast
+import os
 
 from gen_tables import extractor, parse, find_class, find_func, find_assign, body_nodoc, dump_eq, expect, HEADER
 
@@ -143,6 +144,20 @@ def _same_function(fn, src, what):
 
 @extractor
 def gen_cellsize(repo, out):
+    try:
+        _gen_cellsize(repo, out)
+    except Exception:
+        # fail-closed, but never leave a table generated from some *other* tree behind: fall back to the
+        # last validated table (coq/GenGolden), so that the model-as-validated is what gets compared
+        # with the changed code; the caller reports the broken tie.
+        golden = os.path.join(os.path.dirname(os.path.abspath(__file__)), "..", "coq", "GenGolden", "CellSizeGen.v")
+        if os.path.exists(golden):
+            with open(golden) as f:
+                out.add("CellSizeGen.v", f.read())
+        raise
+
+
+def _gen_cellsize(repo, out):
     tt = parse(repo, "tupimage/tupimage_terminal.py")
     gt = parse(repo, "tupimage/graphics_terminal.py")
     T = find_class(tt, "TupimageTerminal")
